@@ -212,6 +212,21 @@ CHECKS = {
         note='The tz database and zoneinfo supply the transition tables (trusted); offsets with seconds (pre-standard-time LMT) are '
              'outside the property; local times in a gap are not judged; one trailing line feed after an ISO text is an allowed set.',
         ref='DESIGN.md 5 C16'),
+    'C19': dict(
+        technique='TLA+ relational definitions of the data functions (Trace_Data: filter, calculated field, top, aggregate, join, CSV '
+                  'round trip) with expressions evaluated by the BareCore evaluator; TLC judges recorded calls of the real functions',
+        text='Tables up to 12 rows x 5 fields with duplicate keys, nulls, mixed key types (a datetime next to the string of its ISO '
+             'text, 1 / "1" / true, arrays), colliding field names (a, a2, a3), key strings containing JSON punctuation, float counts, '
+             'all six aggregate functions and expression pools with and without variables go through the real dataFilter, '
+             'dataCalculatedField, dataTop, dataAggregate, dataJoin; typed tables are written as CSV (quoted commas and quotes, '
+             'date-like invalid text such as 2024-02-30) and read by the real dataParseCSV. TLC evaluates the relational meaning '
+             '(categories = equality under Compare, left-major join with fresh right names, aggregates over non-null values, '
+             'order rules) on the recorded inputs and outputs, evaluating row expressions with the specification\'s own evaluator. '
+             'dataSort is judged in C11.',
+        note='stddev and non-dyadic averages are judged at type level only; whether unmatched left rows are kept is an allowed '
+             'set (the isLeftJoin flag is pinned by the suite in the opposite sense of its documentation); CSV cells contain no '
+             'line breaks or leading blanks.',
+        ref='DESIGN.md 5 C19'),
 }
 
 NOT_YET = 'check not built yet in this round (work in progress; see DESIGN.md section 9 build order)'
